@@ -54,6 +54,14 @@ func (g *G) numLit() *ast.Expr {
 		// more digits than a double holds: the literal is +Inf
 		return ast.Num("1" + strings.Repeat("0", 309+r.Intn(30)))
 	}
+	if g.P.NumberForms && r.Intn(4) == 0 {
+		// literals at the edges of the display forms: integers up to and beyond int64 and 2^53, the switch to exponent
+		// notation at 1e21 and below 1e-4, digits that do not survive 15 places, leading and trailing zeros
+		return ast.Num(r.Pick("100000000000000000000", "1000000000000000000000", "123456789012345680000", "999999999999999999999",
+			"0.0001", "0.00001", "0.0000001", "0.000123456789", "2.50", "007", "0.5", "9007199254740992", "9007199254740993",
+			"9223372036854775807", "9223372036854775808", "18446744073709551616", "0.30000000000000004", "0.1", "1.0", "4.35",
+			"1000000", "999999.9999999999", "123456789.123456789", "0.000001", "1e"[:1]+"0000000000000000000000000000000"))
+	}
 	switch r.Intn(10) {
 	case 0:
 		return ast.Num("0")
